@@ -315,13 +315,17 @@ def offspringX (s : State α) (p : Nat) (z : List α) : List α :=
   vadd ((s.parents.getD p ⟨0, [], [], false, 0⟩).x)
     (vscale (s.sigmas.getD p 0) (matVec (s.A.getD p []) z))
 
+/-- cma.py:412-413: `generate` tags every parent `("p", i)` before anything else. -/
+def retag (s : State α) : State α :=
+  { s with parents := (List.zipIdx s.parents).map (fun p => { p.1 with off := false, pidx := p.2 }) }
+
 /-- `generate` (cma.py:397-431).  `arz` = the `lambda_ × dim` normal draws, `firstFront` = the
 non-dominated front of the (re-tagged) parents, `draws` = the `numpy.random.randint` results.
 Returns the re-tagged parents and, per offspring, its genome and parent index (`"o", p_idx`). -/
 def generate (s : State α) (arz : List (List α)) (firstFront : List (MInd α) → List (MInd α))
     (draws : List Nat) : List (MInd α) × List (List α × Nat) :=
-  let parents := (List.zipIdx s.parents).map (fun p => { p.1 with off := false, pidx := p.2 })   -- :412-413
-  let s' := { s with parents := parents }
+  let s' := retag s                                                                           -- :412-413
+  let parents := s'.parents
   if s.prm.lambda = s.prm.mu then                                                               -- :416
     (parents, (List.zipIdx (arz.take s.prm.lambda)).map (fun zi => (offspringX s' zi.2 zi.1, zi.2)))   -- :417-420
   else
@@ -399,6 +403,17 @@ def update (s : State α) (nobj : Nat) (sortND : List (MInd α) → List (List (
   match select s.prm.mu nobj sortND indicator (population ++ s.parents) with   -- :497
   | none => none
   | some (chosen, notChosen) => some (realign s chosen notChosen, notChosen)
+
+/-- Any number of generate/update rounds: `generate` re-tags the parents (its sampling only decides
+which genomes are evaluated; the theorems quantify over all offspring lists), `update` selects and
+realigns.  `none` = an exception of `_select`. -/
+def run (s : State α) (nobj : Nat) (sortND : List (MInd α) → List (List (MInd α)))
+    (indicator : List (MInd α) → List α → Nat) : List (List (MInd α)) → Option (State α)
+  | [] => some s
+  | pop :: rest =>
+    match update (retag s) nobj sortND indicator pop with
+    | none => none
+    | some r => run r.1 nobj sortND indicator rest
 
 end MO
 
